@@ -244,6 +244,108 @@ def validate (trackWidth bound pixelThreshold diffusion : Rat) : Option String :
 def halfKernelSize (width pixelSize : Float) : Int :=
   Py.floorDiv (Float.ceil (width / pixelSize)).toInt64.toInt 2
 
+/-! ### editing tracks: `KymoTrack.interpolate`, `KymoTrack._split`, `KymoTrackGroup._split_track`,
+    `KymoTrackGroup._merge_tracks`, `filter_tracks`
+
+  A track is its list of (scan-line index, pixel coordinate) points; a group is a list of tracks. -/
+
+abbrev Track := List (Int × Rat)
+
+/-- `track.time_idx` -/
+def timesOf (tr : Track) : List Int := tr.map (·.1)
+
+/-- `np.interp(x, xp, fp)` for one abscissa: the segment `xp[j] ≤ x < xp[j+1]` is found by walking over the
+    points; left of the first point `fp[0]`, right of (and at) the last point `fp[-1]`, exactly on a point its
+    value, inside a segment `slope·(x − xp[j]) + fp[j]` with `slope = (fp[j+1] − fp[j])/(xp[j+1] − xp[j])`. -/
+def interpAt (x : Int) : Int × Rat → Track → Rat
+  | p, [] => p.2
+  | p, q :: rest =>
+    if x < q.1 then
+      (if x ≤ p.1 then p.2 else (q.2 - p.2) / ((q.1 - p.1 : Int) : Rat) * ((x - p.1 : Int) : Rat) + p.2)
+    else interpAt x q rest
+
+/-- `KymoTrack.interpolate`: `arange(int(min(time_idx)), int(max(time_idx)) + 1)` and `np.interp` at those lines
+    (`np.min` of an empty track raises; the protocol answers `ValueError` there) -/
+def interpolate : Track → Track
+  | [] => []
+  | p :: rest =>
+    let lo := (timesOf rest).foldl min p.1
+    let hi := (timesOf rest).foldl max p.1
+    (List.range (hi - lo + 1).toNat).map fun (k : Nat) => (lo + (k : Int), interpAt (lo + (k : Int)) p rest)
+
+/-- `KymoTrack._split(node)`: `node = clip(node, 0, len)`, `[:node]` and `[node:]`, refused when one is empty -/
+def splitAt (tr : Track) (node : Int) : Except String (Track × Track) :=
+  let n := (min (max node 0) (tr.length : Int)).toNat
+  if (tr.take n).isEmpty || (tr.drop n).isEmpty then .error "ValueError" else .ok (tr.take n, tr.drop n)
+
+/-- `KymoTrackGroup._split_track(track, split_node, min_length)` with the track given by its index in the group:
+    the halves that are long enough are appended, the track is removed -/
+def splitTrack (g : List Track) (i : Nat) (node minLen : Int) : Except String (List Track) :=
+  match g[i]? with
+  | none => .error "ValueError"
+  | some tr =>
+    match splitAt tr node with
+    | .error e => .error e
+    | .ok (a, b) => .ok (g.eraseIdx i ++ [a, b].filter fun t => decide (minLen ≤ (t.length : Int)))
+
+/-- `KymoTrackGroup._merge_tracks(starting_track, starting_node, ending_track, ending_node)` with the tracks given
+    by their indices in the group and nodes `0 ≤ node < len`: refused for equal line indices; the earlier node
+    becomes the start; `first_half = [: start + 1]`, `last_half = [end :]`; the result replaces the starting track,
+    the ending track is removed when it is another one -/
+def mergeTracks (g : List Track) (i sn j en : Nat) : Except String (List Track) :=
+  match g[i]?, g[j]? with
+  | some a, some b =>
+    match a[sn]?, b[en]? with
+    | some ps, some pe =>
+      if ps.1 = pe.1 then .error "ValueError"
+      else if ps.1 > pe.1 then
+        let g' := g.set j (b.take (en + 1) ++ a.drop sn)
+        .ok (if j = i then g' else g'.eraseIdx i)
+      else
+        let g' := g.set i (a.take (sn + 1) ++ b.drop en)
+        .ok (if i = j then g' else g'.eraseIdx j)
+    | _, _ => .error "IndexError"
+  | _, _ => .error "RuntimeError"
+
+/-- the test of `filter_tracks`: `len(track) >= minimum_length and track.duration >= minimum_duration`
+    (the line time is that of the track's own kymograph) -/
+def keepTrack (minLen : Int) (minDur lt : Rat) (tr : Track) : Bool :=
+  decide (minLen ≤ (tr.length : Int)) &&
+    (match duration lt (timesOf tr) with
+     | some d => decide (minDur ≤ d)
+     | none => false)
+
+/-- `filter_tracks(tracks, minimum_length, minimum_duration=…)`: the list comprehension -/
+def filterTracks (minLen : Int) (minDur : Rat) (g : List (Rat × Track)) : List (Rat × Track) :=
+  g.filter fun x => keepTrack minLen minDur x.1 x.2
+
+/-- one editing step on a group whose tracks come from one kymograph -/
+inductive EditOp where
+  /-- `[t.interpolate() for t in group]`, except the tracks whose index is listed in `skip` -/
+  | interpolate (skip : List Nat)
+  | split (i : Nat) (node minLen : Int)
+  | merge (i sn j en : Nat)
+  | filter (minLen : Int) (minDur : Rat)
+deriving Repr
+
+def applyOp (lt : Rat) (g : List Track) : EditOp → Except String (List Track)
+  | .interpolate skip => .ok (g.zipIdx.map fun x => if skip.contains x.2 then x.1 else interpolate x.1)
+  | .split i node minLen => splitTrack g i node minLen
+  | .merge i sn j en => mergeTracks g i sn j en
+  | .filter minLen minDur => .ok ((filterTracks minLen minDur (g.map fun t => (lt, t))).map (·.2))
+
+/-- a program of editing steps; a refused step (the code raises before it modifies the group) leaves the group as it is -/
+def runProgram (lt : Rat) : List EditOp → List Track → List Track
+  | [], g => g
+  | op :: ops, g =>
+    match applyOp lt g op with
+    | .ok g' => runProgram lt ops g'
+    | .error _ => runProgram lt ops g
+
+/-- the track (line index, coordinate) that the linker's list of nodes stands for -/
+def trackOf (peaks : List (List Rat)) (t : List Node) : Track :=
+  t.filterMap fun n => (peakAt peaks n).map fun c => ((n.1 : Int), c)
+
 /-! ### protocol -/
 open Verif.Proto
 
@@ -264,6 +366,30 @@ def detPair? (s : String) : Option (Nat × Rat) :=
 
 def showDet (d : Nat × Rat) : String := toString d.1 ++ ":" ++ showRat d.2
 
+def mkGroup (times : List (List Int)) (coords : List (List Rat)) : Option (List Track) :=
+  if times.length ≠ coords.length then none
+  else (times.zip coords).mapM fun (t, c) => if t.length ≠ c.length then none else some (t.zip c)
+
+def showGroup (g : List Track) : String :=
+  showListList showInt (g.map timesOf) ++ " " ++ showListList showRat (g.map fun t => t.map (·.2))
+
+/-- `interp:` / `interp:0,2` (indices left as they are), `split:i:node:minLen`, `merge:i:sn:j:en`, `filter:minLen:minDur` -/
+def editOp? (s : String) : Option EditOp :=
+  match s.splitOn ":" with
+  | ["interp", skip] => do
+    let skip ← if skip = "" then some [] else (skip.splitOn ",").mapM nat?
+    some (.interpolate skip)
+  | ["split", i, node, minLen] => do
+    let i ← nat? i; let node ← int? node; let minLen ← int? minLen
+    some (.split i node minLen)
+  | ["merge", i, sn, j, en] => do
+    let i ← nat? i; let sn ← nat? sn; let j ← nat? j; let en ← nat? en
+    some (.merge i sn j en)
+  | ["filter", minLen, minDur] => do
+    let minLen ← int? minLen; let minDur ← rat? minDur
+    some (.filter minLen minDur)
+  | _ => none
+
 /-- ops:
   `c08.link window vel sigma diffusion cutoff [coords per frame] [amps per frame]`   tracks `[f:j,…;…]`
   `c08.params velocity diffusion sigma lineTime pixelSize`   `[vel_px, diff_px, sigma_px]` (doubles)
@@ -273,7 +399,10 @@ def showDet (d : Nat × Rat) : String := toString d.1 ++ ":" ++ showRat d.2
   `c08.sumwin w [col] c offset`                              `k s(k-1) s(k) s(k+1)`
   `c08.units lineTime pixelSize [idx] [coords]`              seconds | positions | coordinate_idx | duration
   `c08.validate trackWidth bound threshold diffusion`        `ok` or the error
-  `c08.halfwidth width pixelSize`                            -/
+  `c08.halfwidth width pixelSize`
+  `c08.edit lineTime <step> [[idx]] [[coords]]`              the group after one editing step, or the error
+  `c08.editprog lineTime <step|step|…> [[idx]] [[coords]]`   the group after the program (refused steps skipped)
+  `c08.trackof [[coords per frame]] [f:j,…;…]`               the tracks of a linker result as (idx, coordinate) -/
 def handle : List String → Option String
   | ["c08.link", w, vel, sigma, diff, cutoff, coords, amps] => do
     let w ← int? w
@@ -318,6 +447,27 @@ def handle : List String → Option String
   | ["c08.halfwidth", width, ps] => do
     let width ← float? width; let ps ← float? ps
     some (toString (halfKernelSize width ps))
+  | ["c08.edit", lt, step, times, coords] => do
+    let lt ← rat? lt; let op ← editOp? step
+    let times ← listListOf? int? times; let coords ← listListOf? rat? coords
+    let g ← mkGroup times coords
+    if g.any (·.isEmpty) then some "ValueError"
+    else
+      match applyOp lt g op with
+      | .ok g' => some (showGroup g')
+      | .error e => some e
+  | ["c08.editprog", lt, steps, times, coords] => do
+    let lt ← rat? lt; let ops ← (steps.splitOn "|").mapM editOp?
+    let times ← listListOf? int? times; let coords ← listListOf? rat? coords
+    let g ← mkGroup times coords
+    if g.any (·.isEmpty) then some "ValueError"
+    else some (showGroup (runProgram lt ops g))
+  | ["c08.trackof", coords, nodes] => do
+    let coords ← listListOf? rat? coords
+    let nodes ← listListOf? (fun s => match s.splitOn ":" with
+      | [f, j] => do let f ← nat? f; let j ← nat? j; some (f, j)
+      | _ => none) nodes
+    some (showGroup (nodes.map (trackOf coords)))
   | _ => none
 
 end Verif.C08
